@@ -15,6 +15,11 @@ CONFIGS = {
     ('aperture 3 endpoints, members down/up, contraction and expansion over time',
      {'kind': 'aperture', 'n': 3, 'min_size': 1, 'ops': ['D', 'C', 'Down', 'Up', 'Adv', 'Leave', 'Join'], 'advs': [1, 3], 'max_out': 3,
       'max_down': 1, 'max_notifications': 1}, 7),
+    ('aperture 4 endpoints, min_size = max_size = 2, members going down',
+     {'kind': 'aperture', 'n': 4, 'min_size': 2, 'max_size': 2, 'ops': ['D', 'C', 'Down', 'Up', 'Adv', 'Leave'], 'advs': [1], 'max_out': 3,
+      'max_down': 2, 'max_notifications': 1}, 6),
+    ('heap 3 endpoints addressed by a named additional endpoint', {'kind': 'heap', 'n': 2, 'extra': 1, 'ops': NOTIF, 'dup_ops': True,
+                                                                   'endpoint_name': 'thrift', 'max_out': 2, 'probe': True}, 6),
     ('heap notifications during loading', {'kind': 'heap', 'n': 2, 'extra': 1, 'ops': ['Join', 'Leave', 'Gate', 'D', 'C'],
                                            'gate': True, 'notifier': True, 'dup_ops': True, 'max_notifications': 4,
                                            'max_out': 2, 'probe': True}, 8),
